@@ -49,12 +49,18 @@ func (P *Program) discharge(obls []*Obligation, dir string, timeoutMs int, all b
 		wg.Add(1)
 		go func(i int, o *Obligation) {
 			defer wg.Done()
+			solverSlots <- struct{}{}
+			defer func() { <-solverSlots }()
 			results[i] = P.dischargeOne(o, dir, timeoutMs, all)
 		}(i, o)
 	}
 	wg.Wait()
 	return results
 }
+
+// solverSlots bounds the obligations being decided at once in this process (each races up to three solvers):
+// a solver starved of CPU times out on a query it decides in a second otherwise.
+var solverSlots = make(chan struct{}, 10)
 
 // fastMode: single solver (z3-new), used by the frame inference where thousands of small queries are sent.
 var fastMode = false
